@@ -155,6 +155,16 @@ def main(tier):
             raise lib.ToolError("vacuity: no run ever blocked in acquire")
     finally:
         lib.rmtree(work)
+    # 3. the semaphores inside fclones, driven by the repository's own unit tests (throttle semaphores of rehash, open-files limit)
+    import utrace
+    evs, summary = utrace.record(timeout=300)
+    if evs is None:
+        print(f"NOTE property=C19 unit-test traces not available: {summary}")
+        chk.cov["unit_test_traces"] = {"available": False, "why": summary}
+    else:
+        ok = utrace.validate_semaphores(chk, evs, "unit tests of /repo")
+        chk.cov["unit_test_traces"] = {"available": True, "tests": summary, "events": len(evs), "semaphore_segments_accepted": ok,
+                                       "sleeps": sum(1 for e in evs if e["ev"] == "AcqSleep")}
     return chk.finish()
 
 
